@@ -47,6 +47,9 @@ TRANSCRIBED = {
         ("tensordict/nn/sequence.py", "TensorDictSequential.__setitem__", "C14Seq.inKeys / outKeys of the current list (stream keys_after_mutation)"),
         ("tensordict/nn/sequence.py", "TensorDictSequential.__delitem__", "C14Seq.inKeys / outKeys of the current list (stream keys_after_mutation)"),
         ("tensordict/nn/sequence.py", "TensorDictSequential._recompute_keys", "C14Seq.inKeys / outKeys of the current list"),
+        ("tensordict/nn/sequence.py", "TensorDictSequential.insert", "C14Seq.inKeys / outKeys of the current list (stream keys_after_mutation)"),
+        ("tensordict/nn/sequence.py", "TensorDictSequential.append", "C14Seq.inKeys / outKeys of the current list (stream keys_after_mutation)"),
+        ("tensordict/nn/sequence.py", "TensorDictSequential.extend", "C14Seq.inKeys / outKeys of the current list (stream keys_after_mutation)"),
         ("tensordict/nn/sequence.py", "TensorDictSequential._from_selected_modules", "C14Seq.selectNode (the result is a default-option sequence of the kept modules)"),
         ("tensordict/nn/utils.py", "_set_skip_existing_None.__call__", "C14Seq.skips"),
         ("tensordict/nn/probabilistic.py", "ProbabilisticTensorDictModule._dist_sample", "C14Prob.distSample"),
